@@ -49,6 +49,9 @@ def realOps : Ops ℝ where
 @[simp] theorem realOps_le (a b : ℝ) : realOps.le a b = decide (a ≤ b) := rfl
 @[simp] theorem realOps_isOne (a : ℝ) : realOps.isOne a = decide (a = 1) := rfl
 
+theorem isOne_ofBool (b : Bool) : realOps.isOne (realOps.ofBool b) = b := by
+  cases b <;> simp [Ops.ofBool]
+
 theorem rpow_three (x : ℝ) : x ^ ((3 : ℚ) : ℝ) = x ^ 3 := by
   have : ((3 : ℚ) : ℝ) = ((3 : ℕ) : ℝ) := by norm_num
   rw [this, Real.rpow_natCast]
